@@ -39,14 +39,17 @@ FIELDS = [b'x', b'y', b'w', b'len', b'pos', b'vel', b'name', b'update', b'draw',
 LABELS = [b'top', b'done', b'l1', b'again', b'a', b'\x8eq']
 
 NUMBERS = [b'0', b'1', b'2', b'10', b'255', b'0.5', b'1.5', b'5.', b'.5', b'.25', b'1e3', b'2E-2', b'1e+2', b'0x10',
-           b'0XFF', b'0x1f.8', b'0x.8', b'0b101', b'0B1', b'0b1.1', b'32767', b'007', b'3.14159']
+           b'0XFF', b'0x1f.8', b'0x.8', b'0b101', b'0B1', b'0b1.1', b'32767', b'007', b'3.14159',
+           b'0b0.00000000000000001', b'0x.00000000000000008', b'0.000000000000000000001']
 STRINGS = [b'""', b'"s"', b"'s'", b'"a b"', b'"it\'s"', b'"\\n"', b'"\\65\\066"', b'"\\0001"', b'"\x8e\x97"',
            b'[[ls]]', b'[=[l]]s]=]', b'"--x"', b'"\\x41"', b'"\\""', b"'\\''", b'"\\\\"', b'"1"', b'[[\nml]]',
            b'"\\14"', b'"\\*\\^"', b'"x=1"', b'"%d"', b'[[a \nb\t\n c]]', b'[==[\n x  \n]==]', b'"  lead"', b'" "',
            b'"tail\\z  "', b'[[#..# \n#..#\t\n]]',
            # strings whose content is spelled like a keyword or symbol; blank-only lines inside long strings
            b'"nil"', b'"true"', b"'false'", b'"end"', b'[[do]]', b'"("', b'"["', b'"{"', b'"."', b'"="', b'","', b'"..."',
-           b'"::"', b'[[#\n   \n#]]', b'[[a\n \n\t\nb]]', b'"-"', b'"--"', b"'not'"]
+           b'"::"', b'[[#\n   \n#]]', b'[[a\n \n\t\nb]]', b'"-"', b'"--"', b"'not'",
+           # long strings whose text starts with one / two line breaks (the first one is not part of the value)
+           b'[[\n\nx]]', b'[==[\r\n\ny]==]', b'[[\n]]', b'[[\n\n]]']
 
 
 class Cfg:
@@ -708,7 +711,9 @@ def glue_ok(a, b):
     return toks[0].text == a and toks[1].text == b
 
 
-COMMENT_WORDS = [b'c', b'note', b'x=1', b'end', b'"q', b'[[', b']]', b'todo: fix', b'\x8e\x97', b'if (a) b', b'--', b'']
+COMMENT_WORDS = [b'c', b'note', b'x=1', b'end', b'"q', b'[[', b']]', b'todo: fix', b'\x8e\x97', b'if (a) b', b'--', b'',
+                 # backslash sequences (commented-out code, paths); the editor's tab separator `-->8`
+                 b'print("a\\n")', b'c:\\pico\\x', b'\\1 \\g<0>', b'>8', b'>8 tab']
 
 
 def line_comment(ch):
@@ -721,7 +726,7 @@ def line_comment(ch):
 
 
 def long_comment(ch, multiline_ok, nl=b'\n'):
-    body = ch.pick(COMMENT_WORDS[:9])
+    body = ch.pick(COMMENT_WORDS[:9] + COMMENT_WORDS[12:15])
     if body in (b']]',):
         body = b'c'
     if multiline_ok and ch.chance(90):
